@@ -277,6 +277,33 @@ func genWatch(r *rng.R, tier string) fw.Case {
 	for j := 0; j < pre; j++ {
 		write(r.Intn(3))
 	}
+	if r.Chance(1, 3) {
+		// a slow consumer: Watch with replay returns, the consumer has not yet taken the replayed events when other
+		// clients write (to a record the replay has read, and to others); then it drains.  Whatever was written after
+		// Watch returned must end up shown.
+		i0 := r.Intn(3)
+		if !created[i0] {
+			write(i0)
+		}
+		nw++
+		name := "w" + strconv.Itoa(nw)
+		key := "*"
+		if r.Bool() {
+			key = hx(evKey(kind, i0, tx3idx[i0]))
+			tags = append(tags, "per-id")
+		}
+		s = append(s, "store.watch "+name+" 1 "+key+" paused")
+		write(i0)
+		if r.Bool() {
+			write(r.Intn(3))
+		}
+		s = append(s, "store.unpause "+name)
+		tags = append(tags, "slow-consumer-replay")
+		nontrivial = true
+		if r.Bool() {
+			s = append(s, "store.drain")
+		}
+	}
 	first := addWatcher()
 	mid := r.Range(0, 3)
 	for j := 0; j < mid; j++ {
@@ -359,6 +386,22 @@ func enumerate(tier string) []fw.Case {
 					}
 					s = append(s, "store.drain")
 					out = append(out, fw.Case{Script: s, Tags: []string{"enum-watch-position", "kind:" + kind}, Nontrivial: true})
+				}
+				// a slow consumer: the record exists, Watch with replay returns, the record is written again before the
+				// consumer has taken the replayed event (the Set handler pattern when per record), then it drains
+				if replay == "1" {
+					sl := []string{"store.init " + kind}
+					k2 := "*"
+					if perID {
+						k2 = hx(evKey(kind, 0, 1))
+					}
+					sl = append(sl, freshWrite(kind, 0, 1, true)...)
+					sl = append(sl, "store.watch w1 1 "+k2+" paused")
+					sl = append(sl, freshWrite(kind, 0, 2, false)...)
+					sl = append(sl, "store.unpause w1", "store.drain")
+					sl = append(sl, freshWrite(kind, 0, 3, false)...)
+					sl = append(sl, "store.drain")
+					out = append(out, fw.Case{Script: sl, Tags: []string{"enum-slow-consumer-replay", "kind:" + kind}, Nontrivial: true})
 				}
 				// the consumer stops reading, two more writes, cancel, third write, a second watcher must still see everything
 				s := []string{"store.init " + kind}
@@ -761,7 +804,7 @@ var Prop = &fw.Prop{
 	Rule: "scripts on the five real stores over the atomix test client: (ops) 5-16 (thorough 5-30) operations by 2-4 logical clients over 1-3 records — " +
 		"create, read, update/update-status with the version the client holds, pairs of clients writing from the same read version, malformed and fabricated versions, " +
 		"configuration path values, list, read by index — with an observer read after every write; (watch) watchers with/without replay, for all records or one, " +
-		"registered before/between/after writes, consumer stops reading, writes, cancel, write, drain to quiescence; (enum) every position of one Watch among create/update/update " +
+		"registered before/between/after writes, a slow consumer that takes the replay only after further writes, consumer stops reading, writes, cancel, write, drain to quiescence; (enum) every position of one Watch among create/update/update " +
 		"and the stop-write-write-cancel-write scenario for every store x replay x scope; (race) Watch with replay on a cancelled context concurrent with writes. " +
 		"Non-trivial = at least one same-version write pair or one cancel; distinct = distinct script.",
 	Quick: 700, Thorough: 12000, Workers: 8,
